@@ -10,6 +10,8 @@ import (
 
 // pureLibrary: effect-free library functions outside the observer packages.
 var pureLibrary = map[string]bool{
+	"(net/url.Values).Set":                 false, // writes the url.Values map only
+	"(net/url.Values).Add":                 false,
 	"github.com/pb33f/libopenapi/orderedmap.New": false, // constructor: fresh object, modelled heap untouched
 	"encoding/json.Marshal":                true, // a function of the value (maps are marshalled with sorted keys)
 	"strconv.FormatInt":                    true,
